@@ -1,6 +1,6 @@
 use super::fs_utils;
 use csv::ReaderBuilder;
-use flate2::read::GzDecoder;
+use flate2::read::MultiGzDecoder;
 
 use std::{
     fs::File,
@@ -25,7 +25,7 @@ where
 {
     let f = File::open(filepath.as_ref())?;
     let r: Box<dyn io::Read> = if fs_utils::is_gzip(filepath) {
-        Box::new(BufReader::new(GzDecoder::new(f)))
+        Box::new(BufReader::new(MultiGzDecoder::new(f)))
     } else {
         Box::new(f)
     };
@@ -126,7 +126,7 @@ where
 {
     let file = File::open(filepath)?;
     let mut result = vec![];
-    let reader = BufReader::new(GzDecoder::new(file));
+    let reader = BufReader::new(MultiGzDecoder::new(file));
     for (idx, row) in reader.lines().enumerate() {
         let parsed = row?;
         let deserialized = op(idx, parsed)?;
